@@ -8,6 +8,7 @@ import (
 	api "github.com/polydawn/go-timeless-api"
 	"github.com/polydawn/go-timeless-api/rio"
 	"github.com/polydawn/rio/fs"
+	. "github.com/warpfork/go-errcat"
 )
 
 /*
@@ -43,6 +44,14 @@ func PackMulti(ctx context.Context, packTool rio.PackFunc, targetFs fs.FS, parts
 	// Since packfuncs do not mutate their target path, the order we launch them
 	//  is not actually important.  But we sort it anyway, just for consistency.
 	sort.Sort(PackSpecByPath(parts))
+
+	// The result is keyed by path: two specs for one path would silently leave one ware id,
+	//  and which one would depend on the listing order.
+	for i := 1; i < len(parts); i++ {
+		if parts[i].Path == parts[i-1].Path {
+			return nil, Errorf(rio.ErrUsage, "invalid pack config: more than one spec for path %q", parts[i].Path)
+		}
+	}
 
 	// Fan out packing in parallel.
 	packResults := make([]packResult, len(parts))
